@@ -97,6 +97,9 @@ class AlgorithmWithAnnealingMixin:
                 "Your `annealing.n_plateau` should be a positive integer"
             )
 
+        if not self.temperature >= 1:
+            raise LeaspyAlgoInputError("Your `initial_temperature` should be >= 1")
+
         if self.algo_parameters["annealing"]["n_plateau"] == 1:
             warnings.warn(
                 "You defined `annealing.n_plateau` = 1, so you will stay at initial temperature. "
@@ -113,6 +116,15 @@ class AlgorithmWithAnnealingMixin:
         ) / (self.algo_parameters["annealing"]["n_plateau"] - 1)
         if self._annealing_temperature_decrement <= 0:
             raise LeaspyAlgoInputError("Your `initial_temperature` should be > 1")
+
+        if self._annealing_period == 0:
+            # fewer annealing iterations than temperature steps: no plateau could last an iteration
+            # (it used to end in a division by zero at the first iteration, or in a temperature
+            # stuck at its initial value when there was no annealing iteration at all)
+            raise LeaspyAlgoInputError(
+                "The number of iterations with annealing (`annealing.n_iter`, or `annealing.n_iter_frac` * `n_iter`) "
+                "should be at least `annealing.n_plateau` - 1"
+            )
 
     def _update_temperature(self):
         """
@@ -137,6 +149,8 @@ class AlgorithmWithAnnealingMixin:
                 else:
                     # Decrease temperature linearly
                     self.temperature -= self._annealing_temperature_decrement
-                    self.temperature = max(self.temperature, 1)
+                    if self.temperature < 1 + self._annealing_temperature_decrement / 2:
+                        # last plateau: exactly 1 (the repeated subtraction may end one ulp above 1)
+                        self.temperature = 1.0
 
                 self.temperature_inv = 1.0 / self.temperature
